@@ -90,7 +90,7 @@ def prog_items(p):
             nl, body = p[key]
             lcl = ("@local %s; " % ", ".join("l%d" % i for i in range(nl))) if nl else ""
             out.append("%s { %s%s }" % (kw, lcl, " ".join(a_awk(a) for a in body)))
-    return out
+    return out + list(p.get("extra") or [])
 
 
 def prog_awk(p):
@@ -277,6 +277,9 @@ def gen_history(rng, p, n, nctx=NCTX):
             if f == "mput" and rng.random() < 0.8 and "map" in hkind[c].values():
                 m = rng.choice([h for h, t in hkind[c].items() if t == "map"])
                 ops.append("call %d mput h:%d %s %s" % (c, m, arg(c), arg(c)))
+            elif rng.random() < 0.2:
+                # the string-array flavours: the API makes and releases the argument values itself
+                ops.append(("calls %d %s %s" % (c, f, " ".join("s:" + rng.choice(["v", "w1", "hello"]) for _ in range(na)))).rstrip())
             else:
                 ops.append(("call %d %s %s" % (c, f, " ".join(arg(c) for _ in range(na)))).rstrip())
         elif k < 0.64: ops.append("setgbl %d %d %s" % (c, rng.randrange(ndecl), arg(c)))
@@ -317,6 +320,7 @@ class Env:
         import threading
         self.ctx, self.exe = ctx, exe
         self.n = 0
+        self.hangs = 0
         self.lock = threading.Lock()
 
     def scratch(self):
@@ -328,15 +332,39 @@ class Env:
         return d
 
 
-def write_prog(env, p, npieces=1):
-    """-> the paths of the source pieces, space separated (the argument of the `parse` line)"""
+IMODES = ["pieces", "inc", "once", "nested", "dirs"]
+
+
+def write_items(env, items, npieces=1, imode="pieces"):
+    """write top-level items as source files. imode: 'pieces' = every chunk is one in[] entry of hawk_parsestd;
+    'inc' / 'once' = chunk 0 is the main source and pulls the others in with @include / @include_once (the
+    latter repeats one inclusion, which must be ignored); 'nested' = every chunk includes the next one;
+    'dirs' = like 'once' with relative names found through HAWK_OPT_INCLUDEDIRS.
+    -> protocol lines ['incdirs ..', 'parse ..']"""
     d = env.scratch()
-    paths = []
-    for i, txt in enumerate(prog_pieces(p, npieces)):
-        path = os.path.join(d, "p%d.awk" % i)
-        open(path, "w").write(txt)
-        paths.append(path)
-    return " ".join(paths)
+    k = max(1, min(npieces, len(items)))
+    cuts = [round(i * len(items) / k) for i in range(k + 1)]
+    chunks = [list(items[cuts[i]:cuts[i + 1]]) for i in range(k)]
+    paths = [os.path.join(d, "p%d.awk" % i) for i in range(k)]
+    ref = (lambda i: "p%d.awk" % i) if imode == "dirs" else (lambda i: paths[i])
+    kw = "@include" if imode in ("inc", "nested") else "@include_once"
+    if imode != "pieces" and k > 1:
+        if imode == "nested":
+            for i in range(k - 1):
+                chunks[i].append('%s "%s";' % (kw, ref(i + 1)))
+        else:
+            for i in range(1, k):
+                chunks[0].append('%s "%s";' % (kw, ref(i)))
+            if kw == "@include_once":
+                chunks[0].append('@include_once "%s";' % ref(1))       # already included: ignored
+                chunks[k - 1].append('@include_once "%s";' % ref(1))   # from inside an included file too
+    for i in range(k):
+        open(paths[i], "w").write("\n".join(chunks[i]) + "\n")
+    return ["incdirs " + (d if imode == "dirs" else "-"), "parse " + (" ".join(paths) if imode == "pieces" else paths[0])]
+
+
+def write_prog(env, p, npieces=1, imode="pieces"):
+    return write_items(env, prog_items(p), npieces, imode)
 
 
 def run_c(env, lines):
@@ -347,9 +375,9 @@ def run_c(env, lines):
     if out and out[-1] == "HANG":
         st = "HANG"
     if st != "ok":
-        summ = [l for l in err.splitlines() if l.startswith("SUMMARY:")]
+        summ = [l for l in err.splitlines() if l.startswith("SUMMARY:") or "runtime error:" in l]
         if summ:
-            st += " (" + summ[0][9:].strip()[:160] + ")"
+            st += " (" + summ[0].replace("SUMMARY:", "").strip()[:200] + ")"
     res = []
     for l in out:
         if " # " in l:
@@ -397,9 +425,13 @@ def oracle_single(lines, st, res):
             return (i, "allocator: a block owned by one context was freed/resized while another context was running, or a foreign pointer was freed (%s)" % b)
         if w[0] == "fin" and a != "end live=0 xfree=0 badfree=0":
             return (i, "after every context was closed and the interpreter destroyed the allocator still counts live blocks / cross frees: %s" % a)
+        if w[0] == "close" and a.startswith("close ECB"):
+            return (i, "hawk_rtx_close did not call the registered close callbacks exactly once (or called a killed one): %s" % a)
+        if w[0] == "halt" and a.startswith("halt NOT"):
+            return (i, "hawk_rtx_ishalt is false right after hawk_rtx_halt")
         if w[0] == "close" and a.startswith("close ok") and ac.get("lb", 0) != 0:
             return (i, "%d blocks owned by the context are still live after hawk_rtx_close" % ac.get("lb"))
-        if w[0] in ("call", "loop", "exec", "setgbl", "getgbl", "halt", "open") and " top=" in a:
+        if w[0] in ("call", "calls", "loop", "exec", "setgbl", "getgbl", "halt", "open") and " top=" in a:
             c = w[1]
             if field(a, "top") != "0" or field(a, "base") != "0":
                 return (i, "stack not restored after the op: %s" % a)
@@ -410,7 +442,7 @@ def oracle_single(lines, st, res):
                 return (i, "exit level not reset by loop: %s" % a)
             if w[0] in ("setgbl", "getgbl") and c in prev_xl and xl != prev_xl[c]:
                 return (i, "exit level changed by %s: %s" % (w[0], a))
-            if w[0] == "call":
+            if w[0] in ("call", "calls"):
                 ret = field(a, "ret"); er = field(a, "err")
                 heap = lambda t: (t.startswith("s:") and len(t) > 2) or t.startswith("m:")
                 if heap(ret) and field(a, "rc") == "0":
@@ -491,7 +523,14 @@ def run_c_batch(env, runs):
         first_bad = next((i for i, x in enumerate(res) if x[0] != "ok"), len(runs))
         allcomplete = all(len(pieces[i]) >= len(runs[i]) for i in range(min(len(pieces), len(runs)))) and len(pieces) >= len(runs)
         for i in (range(len(runs)) if allcomplete else range(first_bad, len(runs))):
+            if env.hangs > 3:
+                # a tree that hangs everywhere must not cost 20 s per run: the first hangs are enough to report
+                res[i] = ("not-run (too many hangs before)", [], "")
+                continue
             s2, pairs2, err2 = run_c(env, runs[i])
+            if s2.startswith("HANG") or s2.startswith("TIMEOUT"):
+                with env.lock:
+                    env.hangs += 1
             res[i] = (s2, pairs2, err2)
     return res
 
@@ -504,12 +543,21 @@ def run_model_batch(env, runs):
 
 class Case:
     """one generated case: program + interleaved ops (kind 'inter'), or a reset/reparse sequence (kind 'reparse')"""
-    def __init__(self, kind, p, ops, p0=None, ops0=None, how=None, origin="gen", np=1, np0=1):
+    def __init__(self, kind, p, ops, p0=None, ops0=None, how=None, origin="gen", np=1, np0=1, im="pieces", im0="pieces", p0text=None):
         self.kind, self.p, self.ops, self.p0, self.ops0, self.how, self.origin = kind, p, ops, p0, ops0, how, origin
         self.np, self.np0 = np, np0       # number of source pieces of the (second) program / of the first program
+        self.im, self.im0 = im, im0       # how the pieces are put together (see write_items)
+        self.p0text = p0text              # a first program given as text instead of p0
+
+    def clone(self, **kw):
+        c = Case(self.kind, self.p, self.ops, self.p0, self.ops0, self.how, self.origin, self.np, self.np0, self.im, self.im0, self.p0text)
+        for k, v in kw.items():
+            setattr(c, k, v)
+        return c
 
     def to_json(self):
-        return dict(kind=self.kind, p=self.p, ops=self.ops, p0=self.p0, ops0=self.ops0, how=self.how, np=self.np, np0=self.np0)
+        return dict(kind=self.kind, p=self.p, ops=self.ops, p0=self.p0, ops0=self.ops0, how=self.how, np=self.np, np0=self.np0,
+                    im=self.im, im0=self.im0, p0text=self.p0text)
 
     @staticmethod
     def from_json(d, origin="corpus"):
@@ -520,33 +568,52 @@ class Case:
             if p is None:
                 return None
             q = dict(ng=p["ng"], funs=[(f[0], f[1], f[2], [tup(a) for a in f[3]]) for f in p["funs"]])
+            for key in ("plain", "extra"):
+                if p.get(key):
+                    q[key] = p[key]
             for key in ("begin", "end"):
                 if p.get(key):
                     q[key] = (p[key][0], [tup(a) for a in p[key][1]])
             return q
         return Case(d["kind"], prog(d["p"]), d["ops"], prog(d.get("p0")), d.get("ops0"), d.get("how"), origin,
-                    np=d.get("np", 1), np0=d.get("np0", 1))
+                    np=d.get("np", 1), np0=d.get("np0", 1), im=d.get("im", "pieces"), im0=d.get("im0", "pieces"), p0text=d.get("p0text"))
 
 
-def head_lines(p, awkpath):
-    return prog_lines(p) + ["parse " + awkpath]
+def head_lines(p, parse_lines):
+    return prog_lines(p) + parse_lines
 
 
 def case_runs(env, case):
     """-> (runs, meta): the C runs this case needs. meta[i] = ('inter'|'proj'|'fresh', ctx)"""
-    awk = write_prog(env, case.p, case.np)
+    awk = write_prog(env, case.p, case.np, case.im)
     case.awk = awk
     runs, meta = [], []
-    if case.kind == "inter":
+    if case.kind in ("inter", "ext"):
         runs.append(["new"] + head_lines(case.p, awk) + case.ops + ["fin"]); meta.append(("inter", None))
         for c in sorted({op_ctx(o) for o in case.ops if op_ctx(o) is not None}):
             runs.append(["new"] + head_lines(case.p, awk) + [o for o in case.ops if op_ctx(o) == c] + ["fin"]); meta.append(("proj", c))
     else:
-        awk0 = write_prog(env, case.p0, case.np0)
+        if case.p0text:
+            first = write_p0text(env, case)
+        else:
+            first = head_lines(case.p0, write_prog(env, case.p0, case.np0, case.im0))
         reset = reset_lines(env, case.how)
-        runs.append(["new"] + head_lines(case.p0, awk0) + case.ops0 + reset + head_lines(case.p, awk) + case.ops + ["fin"]); meta.append(("inter", None))
+        runs.append(["new"] + first + case.ops0 + reset + head_lines(case.p, awk) + case.ops + ["fin"]); meta.append(("inter", None))
         runs.append(["new"] + head_lines(case.p, awk) + case.ops + ["fin"]); meta.append(("fresh", None))
     return runs, meta
+
+
+def write_p0text(env, case):
+    """a first program given as text (uses parser features the abstract programs do not have): its include
+    files are written next to it; '%(D)s' in an item stands for that directory"""
+    t = case.p0text
+    d = env.scratch()
+    for name, txt in (t.get("incs") or {}).items():
+        open(os.path.join(d, name), "w").write(txt.replace("%(D)s", d))
+    items = [it.replace("%(D)s", d) for it in t["items"]]
+    path = os.path.join(d, "main.awk")
+    open(path, "w").write("\n".join(items) + "\n")
+    return ["incdirs " + (d if t.get("dirs") else "-"), "parse " + path]
 
 
 def judge_case(case, runs, meta, results):
@@ -555,7 +622,7 @@ def judge_case(case, runs, meta, results):
     o = oracle_single(runs[0], st, res)
     if o is not None:
         return "op %d %r: %s" % (o[0], runs[0][min(o[0], len(runs[0]) - 1)], o[1])
-    if case.kind == "inter":
+    if case.kind in ("inter", "ext"):
         inter = per_ctx(runs[0], res)
         for (kind, c), r, (st2, res2, err2) in zip(meta[1:], runs[1:], results[1:]):
             o1 = oracle_single(r, st2, res2)
@@ -581,6 +648,12 @@ def judge_case(case, runs, meta, results):
     return None
 
 
+def mrun(case):
+    """the run the Lean driver follows: the whole history, or — when the first program of a re-parse case is
+    given as text the model has no counterpart for — the fresh-interpreter run of the second program"""
+    return 1 if (case.kind == "reparse" and case.p0text) else 0
+
+
 def check_cases(env, cases, model=True, workers=8, per_batch=24):
     """run all cases in parallel batches. -> list of dict(prop, corr, runs, results, model) per case"""
     prepared = [case_runs(env, c) for c in cases]
@@ -597,10 +670,11 @@ def check_cases(env, cases, model=True, workers=8, per_batch=24):
                 cres[(ci, ri)] = r
     mres = {}
     if model:
-        mb = [list(range(i, min(i + per_batch * 2, len(cases)))) for i in range(0, len(cases), per_batch * 2)]
+        mids = [ci for ci, c in enumerate(cases) if c.kind != "ext"]      # 'ext' programs are beyond the model: oracle only
+        mb = [mids[i:i + per_batch * 2] for i in range(0, len(mids), per_batch * 2)]
 
         def do_m(ids):
-            return ids, run_model_batch(env, [prepared[ci][0][0] for ci in ids])
+            return ids, run_model_batch(env, [prepared[ci][0][mrun(cases[ci])] for ci in ids])
         with ThreadPoolExecutor(max_workers=workers) as ex:
             for ids, outs in ex.map(do_m, mb):
                 for ci, o in zip(ids, outs):
@@ -610,8 +684,9 @@ def check_cases(env, cases, model=True, workers=8, per_batch=24):
         runs, meta = prepared[ci]
         results = [cres[(ci, ri)] for ri in range(len(runs))]
         r = dict(prop=judge_case(case, runs, meta, results), corr=None, runs=runs, results=results, model=mres.get(ci, []))
-        if model and r["prop"] is None:
-            co = [a for a, b in results[0][1]][:len(runs[0])]
+        if model and r["prop"] is None and case.kind != "ext":
+            mi = mrun(case)
+            co = [a for a, b in results[mi][1]][:len(runs[mi])]
             mo = mres.get(ci, [])
             if case.p.get("plain") or (case.p0 or {}).get("plain"):
                 # a look-up of a plain variable that does not exist yet leaves HAWK_ENOENT in the sticky error
@@ -620,7 +695,7 @@ def check_cases(env, cases, model=True, workers=8, per_batch=24):
                 co, mo = [norm_err(x) for x in co], [norm_err(x) for x in mo]
             d = C.diff_streams(co, mo)
             if d is not None:
-                r["corr"] = "line %d %r: impl %r vs model %r" % (d, runs[0][min(d, len(runs[0]) - 1)], co[d] if d < len(co) else None, mo[d] if d < len(mo) else None)
+                r["corr"] = "line %d %r: impl %r vs model %r" % (d, runs[mi][min(d, len(runs[mi]) - 1)], co[d] if d < len(co) else None, mo[d] if d < len(mo) else None)
         out.append(r)
     return out
 
@@ -658,6 +733,9 @@ def gen_broken(rng, donor):
         bad = ["function getq(a0) { return a0; }", "function getq(a1) { return a1; }"]
     else:
         bad = ["@global %s; function f( { }" % names(2)]
+    if rng.random() < 0.35:
+        # parser state set before the failure must not survive it
+        pre = rng.sample(["@pragma stack_limit 2000;", "@pragma entry getg;", "@pragma implicit off;", "@pragma striprecspc on;"], rng.randrange(1, 3)) + pre
     return dict(items=pre + bad, inc=inc, kind=kind)
 
 
@@ -668,6 +746,113 @@ def norm_err(line):
     return a + " err=*" + (" " + b.split(" ", 1)[1] if " " in b else "")
 
 
+# ---- programs beyond the abstract language (property oracle only) ----
+EXT_LIB = ["boom", "quit", "quit2", "getg", "setg", "rd", "deep", "undef", "nosuch", "byref", "tomap"]
+
+
+def gen_ext_expr(rng, nparams, callables, depth):
+    """an awk expression over the parameters and globals whose argument lists contain nested calls — to library
+    functions that fail at run time, exit, or succeed, to earlier ext functions, and to intrinsic functions —
+    so that a call fails or exits half-way through its argument list with heap values already pushed"""
+    k = rng.random()
+    atom = lambda: rng.choice(['("h%d" g%d)' % (rng.randrange(9), rng.randrange(NG)), '"lit%d"' % rng.randrange(9)] +
+                              (['(a%d "p")' % rng.randrange(nparams)] * 2 if nparams else []) + ["g%d" % rng.randrange(NG), "$0", "NR"])
+    if depth <= 0 or k < 0.25:
+        return atom()
+    if k < 0.75:
+        f = rng.choice(callables)
+        n = {"boom": 1, "quit": 1, "quit2": 1, "getg": 0, "setg": 1, "rd": 0, "deep": 1, "undef": 0, "nosuch": 2, "byref": 1, "tomap": 1}.get(f)
+        if n is None:
+            n = int(f[1:].split("_")[1])           # ext functions are called x<i>_<nargs>
+        if f in ("byref", "tomap"):
+            return "%s(%s)" % (f, rng.choice(["g%d" % rng.randrange(NG), "$0"] + (["a%d" % rng.randrange(nparams)] if nparams else [])))
+        return "%s(%s)" % (f, ", ".join(gen_ext_expr(rng, nparams, callables, depth - 1) for _ in range(n)))
+    if k < 0.9:
+        fn, n = rng.choice([("length", 1), ("substr", 3), ("index", 2), ("toupper", 1), ("sprintf", 3)])
+        args = [gen_ext_expr(rng, nparams, callables, depth - 1) for _ in range(n)]
+        if fn == "sprintf": args[0] = '"%s-%s"'
+        if fn == "substr": args[1], args[2] = "1", "3"
+        return "%s(%s)" % (fn, ", ".join(args))
+    return "(%s %s)" % (gen_ext_expr(rng, nparams, callables, depth - 1), gen_ext_expr(rng, nparams, callables, depth - 1))
+
+
+def gen_ext(rng):
+    """-> Case(kind 'ext'): the fixed library plus text functions x<i>_<n> built from gen_ext_expr, a BEGIN and an
+    END block of the same kind (hawk_rtx_loop takes the same paths), random interleaved histories"""
+    site = itertools.count(1)
+    p = dict(ng=NG, funs=base_funs(site))
+    callables = list(EXT_LIB)
+    extra, names = [], {}
+    for i in range(rng.randrange(2, 6)):
+        n = rng.randrange(0, 4)
+        name = "x%d_%d" % (i, n)
+        params = ", ".join("a%d" % j for j in range(n))
+        stmts = []
+        for _ in range(rng.randrange(1, 3)):
+            e = gen_ext_expr(rng, n, callables, 3)
+            stmts.append(rng.choice(["l0 = %s;", "g%d = %%s;" % rng.randrange(NG), "print %s;", "l0 = %s;"]) % e)
+        stmts.append("return %s;" % gen_ext_expr(rng, n, callables, 2))
+        extra.append("function %s(%s) { @local l0; %s }" % (name, params, " ".join(stmts)))
+        callables.append(name); names[name] = n
+    if rng.random() < 0.7:
+        extra.append("BEGIN { @local l0; l0 = %s; print l0; }" % gen_ext_expr(rng, 0, callables, 3))
+    if rng.random() < 0.5:
+        extra.append("END { @local l0; l0 = %s; print (l0 NR); }" % gen_ext_expr(rng, 0, callables, 3))
+    p["extra"] = extra
+    # histories: calls to the ext functions (and some library ones), loops, closes
+    ops = []
+    nctx = rng.choice([2, 2, 3])
+    for c in range(nctx):
+        ops.append("open %d" % c)
+    for _ in range(rng.randrange(6, 30)):
+        c = rng.randrange(nctx)
+        k = rng.random()
+        if k < 0.7:
+            f = rng.choice(list(names))
+            verb = "calls" if rng.random() < 0.3 else "call"
+            ops.append(("%s %d %s %s" % (verb, c, f, " ".join("s:" + rng.choice(["v", "w1", "hello"]) for _ in range(names[f])))).rstrip())
+        elif k < 0.8: ops.append(rng.choice(["loop %d", "exec %d"]) % c)
+        elif k < 0.9: ops.append("call %d %s" % (c, rng.choice(["getg", "rd"])))
+        elif k < 0.95: ops.append("setgbl %d %d s:%s" % (c, rng.randrange(NG), rng.choice(["gv", "gw"])))
+        else: ops.append("getgbl %d %d" % (c, rng.randrange(NG)))
+    for c in range(nctx):
+        ops.append("loop %d" % c)          # un-latch, then a last call must still work
+        ops.append("call %d getg" % c)
+        ops.append("close %d" % c)
+    return Case("ext", p, ops, np=rng.choice([1, 2, 3]), im=rng.choice(IMODES))
+
+
+def gen_p0text(rng):
+    """a first program as text that uses the parser features which keep per-interpreter state: @pragma (entry,
+    implicit, stack_limit, the strip/detect switches), @include and @include_once (nested, repeated), global /
+    function / plain-variable names from the pool later programs use in other roles.  Always valid."""
+    implicit_off = rng.random() < 0.4
+    gl = rng.sample(["g1", "g2", "l0", "a1", "pv", "getq", "u0", "NRx"], rng.randrange(1, 4))
+    incg = rng.sample(["l1", "a2", "pr", "u1", "zq"], 2)
+    items = []
+    if implicit_off: items.append("@pragma implicit off;")
+    if rng.random() < 0.5: items.append("@pragma stack_limit %d;" % rng.choice([600, 900, 4000]))
+    if rng.random() < 0.4: items.append("@pragma entry main;")
+    for sw in ("striprecspc", "stripstrspc", "numstrdetect", "multilinestr"):
+        if rng.random() < 0.25: items.append("@pragma %s %s;" % (sw, rng.choice(["on", "off"])))
+    items.append("@global %s;" % ", ".join(gl))
+    dirs = rng.random() < 0.4
+    ref = (lambda n: n) if dirs else (lambda n: "%(D)s/" + n)
+    kw = lambda: rng.choice(["@include", "@include_once"])
+    first = kw()
+    items.append('%s "%s";' % (first, ref("incA.awk")))
+    items.append('@include_once "%s";' % ref("incA.awk") if first == "@include_once" or rng.random() < 0.5 else '@include_once "%s";' % ref("incB.awk"))
+    incs = {"incA.awk": '@global %s;\n@include_once "%s";\nfunction incfa(a0) { return (a0 "a" incfb(a0)); }\n' % (incg[0], ref("incB.awk")),
+            "incB.awk": '@global %s;\nfunction incfb(a0) { @local l0; l0 = (a0 "b"); return l0; }\n' % incg[1]}
+    body = "%s = incfa(a0); %s = (a0 \"x\");" % (gl[0], incg[0])
+    if not implicit_off:
+        body += " pvx = (pvx a0); getg = 1;"        # plain variables, one named like a function of later programs
+    items.append("function main(a0) { @local l0; %s l0 = %s; return (l0 \"m\"); }" % (body, gl[0]))
+    if rng.random() < 0.6: items.append('BEGIN { print "first"; }')
+    ops0 = ["open 0", "call 0 main s:x", rng.choice(["exec 0", "loop 0"]), "call 0 main s:y", "close 0"]
+    return dict(items=items, incs=incs, dirs=dirs), ops0
+
+
 def gen_reparse(rng):
     p0 = gen_prog(rng, plain=rng.choice([0, 0, 1]))
     p = gen_prog(rng, plain=rng.choice([0, 1, 2, 2]))
@@ -675,16 +860,25 @@ def gen_reparse(rng):
         # make the second program smaller: functions and BEGIN/END of the first must be gone
         keep = {"getg", "setg"}
         funs = [f for f in p["funs"] if rng.random() < 0.6 or f[0] in keep]
-        have = {f[0] for f in funs}
         p2 = dict(ng=NG, funs=funs)        # calls to dropped functions become run-time EFUNNF: fine
         if p.get("plain"):
             p2["plain"] = p["plain"]
         p = p2
     ops0 = gen_history(rng, p0, rng.randrange(3, 14), nctx=2)     # ends with every context closed
     ops = gen_history(rng, p, rng.randrange(3, 14), nctx=2)
-    # the sources come in several pieces, more for the first program than for the second most of the time
+    if not any(o.split()[0] in ("exec",) for o in ops):
+        ops.insert(min(3, len(ops)), "exec 0")                        # @pragma entry of an earlier program must be gone
+    if not any("deep" in o for o in ops):
+        ops.insert(min(3, len(ops)), "call 0 deep s:d")              # ... and so must @pragma stack_limit
+        ops.insert(min(4, len(ops)), "getgbl 0 0")
+    # the sources come in several pieces, more for the first program than for the second most of the time,
+    # put together as in[] entries or by @include / @include_once (both parses use them)
     np0 = rng.choice([1, 2, 3, 4])
-    np = rng.choice([1, 1, 2]) if rng.random() < 0.7 else rng.choice([2, 3, 5])
+    np = rng.choice([1, 1, 2]) if rng.random() < 0.6 else rng.choice([2, 3, 5])
+    im0, im = rng.choice(IMODES), rng.choice(IMODES)
+    if im0 != "pieces" and rng.random() < 0.6:
+        np0 = max(np0, 2); np = max(np, 2)
+        im = rng.choice(IMODES[1:])
     # what happens between the two programs: resets and parses that FAIL, in any mix
     steps = []
     for _ in range(rng.choice([0, 1, 1, 2, 3])):
@@ -692,7 +886,11 @@ def gen_reparse(rng):
         if k < 0.25: steps.append(["clear"])
         elif k < 0.35: steps.append(["missing"])
         else: steps.append(["broken", gen_broken(rng, rng.choice([p0, p])), rng.choice([1, 1, 2])])
-    return Case("reparse", p, ops, p0=p0, ops0=ops0, how=steps, np=np, np0=np0)
+    p0text = None
+    if rng.random() < 0.4:
+        p0text, ops0 = gen_p0text(rng)
+        p0 = None
+    return Case("reparse", p, ops, p0=p0, ops0=ops0, how=steps, np=np, np0=np0, im=im, im0=im0, p0text=p0text)
 
 
 OLD_HOW = {"clear": [["clear"]], "parsebad": [["missing"]], "none": [], "both": [["clear"], ["missing"], ["clear"]]}
@@ -758,11 +956,11 @@ def classify(results):
     """outcome tags of the calls of an interleaved run (from the implementation's output)"""
     tags = []
     for a, b in results[0][1]:
-        if a.startswith("call ") or a.startswith("loop ") or a.startswith("exec "):
+        if a.startswith("call ") or a.startswith("calls ") or a.startswith("loop ") or a.startswith("exec "):
             ret, er, xl = field(a, "ret"), field(a, "err"), field(a, "xl")
             if ret == "NULL":
                 tags.append("fail:" + str(er))
-            elif xl in ("5", "6") and a.startswith("call "):
+            elif xl in ("5", "6") and a.startswith("call"):
                 tags.append("exit")
             else:
                 tags.append("ok")
@@ -777,7 +975,7 @@ def nontrivial(case, results):
     per = {}
     for l, (a, b) in zip(case_lines_of(case), results[0][1]):
         c = op_ctx(l)
-        if c is not None and a.startswith("call "):
+        if c is not None and (a.startswith("call ") or a.startswith("calls ")):
             per.setdefault(c, []).append((field(a, "ret"), field(a, "err"), field(a, "xl")))
     active = [c for c, v in per.items() if any(r != "NULL" or e in ("EDIVBY0", "ESTACK") for r, e, x in v)]
     after_fail = any(any(v[i][0] == "NULL" and v[i][1] in ("EDIVBY0", "ESTACK", "EFUNNF", "EARGTM") or v[i][2] == "5" for i in range(len(v) - 1)) for v in per.values())
@@ -785,19 +983,20 @@ def nontrivial(case, results):
 
 
 def case_lines_of(case):
-    return ["new"] + prog_lines(case.p) + ["parse x"] + case.ops
+    return ["new"] + prog_lines(case.p) + ["incdirs -", "parse x"] + case.ops
 
 
 def shrink(env, case, fails):
-    """ddmin over the op list (program kept); fails(case) -> bool"""
-    def f(sub):
-        return fails(Case(case.kind, case.p, list(sub), case.p0, case.ops0, case.how, np=case.np, np0=case.np0))
-    small = C.ddmin(case.ops, f, max_tests=60)
-    c2 = Case(case.kind, case.p, list(small), case.p0, case.ops0, case.how, np=case.np, np0=case.np0)
+    """ddmin over the op lists (programs kept); fails(case) -> bool"""
+    small = C.ddmin(case.ops, lambda sub: fails(case.clone(ops=list(sub))), max_tests=60)
+    c2 = case.clone(ops=list(small))
     if case.kind == "reparse" and case.ops0:
-        def g(sub):
-            return fails(Case(case.kind, case.p, c2.ops, case.p0, list(sub), case.how, np=case.np, np0=case.np0))
-        c2.ops0 = list(C.ddmin(case.ops0, g, max_tests=40))
+        # open/close lines stay: with a context left open the harness refuses the next parse, which is not the failure
+        fixed = lambda o: o.split()[0] in ("open", "close")
+        idx = [i for i, o in enumerate(case.ops0) if not fixed(o)]
+        rebuild = lambda keep: [o for i, o in enumerate(case.ops0) if fixed(o) or i in keep]
+        kept = C.ddmin(idx, lambda sub: fails(c2.clone(ops0=rebuild(set(sub)))), max_tests=40)
+        c2 = c2.clone(ops0=rebuild(set(kept)))
     return c2
 
 
@@ -855,9 +1054,11 @@ def run(ctx):
     cases += exhaustive_cases(full=not quick)
     for _ in range(140 if quick else 2500):
         p = gen_prog(rng, plain=rng.choice([0, 0, 0, 1, 2]))
-        cases.append(Case("inter", p, gen_history(rng, p, rng.randrange(6, 45), nctx=rng.choice([2, 3, 3])), np=rng.choice([1, 1, 2, 3])))
+        cases.append(Case("inter", p, gen_history(rng, p, rng.randrange(6, 45), nctx=rng.choice([2, 3, 3])), np=rng.choice([1, 1, 2, 3]), im=rng.choice(IMODES)))
     for _ in range(60 if quick else 600):
         cases.append(gen_reparse(rng))
+    for _ in range(90 if quick else 1500):
+        cases.append(gen_ext(rng))
     results = check_cases(env, cases, model=True)
     evaluations = sum(len(r["runs"][0]) for r in results)
     dist, outcomes = {}, {}
@@ -909,13 +1110,14 @@ def run(ctx):
     nontriv = len({(prog_awk(c.p), tuple(c.ops)) for c, r in zip(cases, results) if c.kind == "inter" and nontrivial(c, r["results"])})
     samples = [" ; ".join(c.ops[:9]) for c in cases[ncorpus + 5:ncorpus + 6] + cases[-40:-38] + cases[-2:-1]]
     return C.finish(ctx, [proof], evaluations, nontriv,
-                    "cases = corpus + every length-3 sequence over a %d-op alphabet on two contexts of a fixed program + seeded random programs (23 library functions: global-derived value, global setter, run-time failure, exit direct and nested, by-reference parameters, map mutation, console+file output, close, getline, recursion to ESTACK, undefined callee, too many arguments, script-level calls that copy by-reference parameters back to globals/locals/parameters/$0 incl. a copy-back rejected after the callee returned; plus 1-4 random functions, random BEGIN/END) with random interleavings of open/call/loop/exec/setgbl/getgbl/halt/mkstr/mkmap/drop/show/close over 2-3 contexts + reset/re-parse sequences with different programs whose sources come in 1-5 pieces of differing counts and, in between, any mix of hawk_clear, a missing source and sources that FAIL to parse at chosen positions (inside @global / @local lists after names were accepted, inside function headers, after an @include that declared names, in a body, in a string) introducing the identifiers later programs use as globals, locals, parameters, functions and plain variables; "
+                    ("cases = corpus + every length-3 sequence over a %d-op alphabet on two contexts of a fixed program + seeded random programs (23 library functions: global-derived value, global setter, run-time failure, exit direct and nested, by-reference parameters, map mutation, console+file output, close, getline, recursion to ESTACK, undefined callee, too many arguments, script-level calls that copy by-reference parameters back to globals/locals/parameters/$0 incl. a copy-back rejected after the callee returned; plus 1-4 random functions, random BEGIN/END) with random interleavings of open/call/loop/exec/setgbl/getgbl/halt/mkstr/mkmap/drop/show/close over 2-3 contexts + reset/re-parse sequences with different programs whose sources come in 1-5 pieces of differing counts and, in between, any mix of hawk_clear, a missing source and sources that FAIL to parse at chosen positions (inside @global / @local lists after names were accepted, inside function headers, after an @include that declared names, in a body, in a string) introducing the identifiers later programs use as globals, locals, parameters, functions and plain variables; "
+                    "+ programs beyond the abstract language (text functions whose argument lists contain nested calls to failing / exiting / succeeding library, earlier text and intrinsic functions, in functions and in BEGIN/END) judged by the property oracle only; the harness picks, from the content of each op line, one of the equivalent API entry points (hawk_rtx_callwithbcstr/ucstr, findfunwith*+callfun, the four callwith*strarr, execwithbcstrarr/ucstrarr, setgbl by id or setgbltostrbyname, openstdwithbcstr/ucstr, hawk_parsestd with path or text pieces in byte or wide form) and registers runtime callback sets whose close calls are counted; " +
                     "each interleaving is run on the real code interleaved AND as per-context projections on fresh interpreters (observations incl. reference counts, exit level, stack height, rio chain, NR, console, files, live blocks per context must be identical), and the interleaved run is compared line by line with the Lean driver; "
-                    "distinct_nontrivial = distinct interleavings where at least two contexts ran a function body and a call failed at run time or exited with a later call on the same context" % (12 if quick else 17),
+                    "distinct_nontrivial = distinct interleavings where at least two contexts ran a function body and a call failed at run time or exited with a later call on the same context") % (12 if quick else 17),
                     samples, extra_cov=dict(op_distribution=dist, call_outcomes=outcomes, cases=len(cases), impl_status=status,
                                             reparse_cases=sum(1 for c in cases if c.kind == "reparse")),
                     trusted=["run.c/hawk.c API paths modelled by hand in HawkModel/Ctx.lean over an abstract action language (expressions: literals, variables, $0, NR, concatenation, length); pattern-action blocks, pipes, getline from files, modules and the garbage collector are not modelled",
-                             "rendering of abstract programs to awk text (vlib/props/c09.py) and the hidden globals DIR/ZZ; plain (undeclared) variables are kept in global slots by the model, and for programs that use them the sticky error number is compared only on failing operations (a miss in the named-variable table leaves HAWK_ENOENT behind)",
+                             "nested calls inside argument lists (the oops_making_stack_frame unwinding of hawk_rtx_evalcall), @pragma entry/stack_limit and hawk_haltall are not in the Lean model: they are covered by the oracle-only program family and the re-parse comparisons", "rendering of abstract programs to awk text (vlib/props/c09.py) and the hidden globals DIR/ZZ; plain (undeclared) variables are kept in global slots by the model, and for programs that use them the sticky error number is compared only on failing operations (a miss in the named-variable table leaves HAWK_ENOENT behind)",
                              "model clears dead stack slots and ignores variable references outside the frame (unobservable; the parser never produces them)"],
                     assumptions=["interleaving at API-call granularity from one thread; true thread-level concurrency (data races on call->u.fun.fun, hawk->haltall) is out of scope",
                                  "the application follows the API contract: one refdown per returned value, values used only with the context that made them, contexts closed before hawk_clear/hawk_parse",
